@@ -15,6 +15,16 @@ static void verify_matrix(const char *what, const uint8_t *obj, size_t len, cons
 		int r = x509_signed_verify(obj, len, key, idb, IDS[i].n); free(idb); int want = (k == 0 && i == sid); vh_eval(vh_hash(obj, len, k * 10 + i + 1));
 		if ((r == 1) != want) { char key2[160]; snprintf(key2, sizeof key2, "C15:%s:verify-matrix:%s:key=%s:id=%d-signed-under-%d", what, r == 1 ? "accepted" : "rejected", k ? "other" : "issuer", i, sid); vh_viol(key2, "\"verify_id\":\"%s\",\"sign_id\":\"%s\"", vh_hex(IDS[i].p, IDS[i].n), vh_hex(IDS[sid].p, IDS[sid].n)); } }
 }
+/* the outer signatureAlgorithm replaced by every OTHER signature algorithm the library knows (taken from its own table: every oid for which
+   x509_signature_algor_name answers), TBS and signature value untouched: the object must not verify under the issuer's SM2 key any more */
+static void alg_relabel(const char *what, const uint8_t *obj, size_t len, const SM2_KEY *key, int sid) {
+	der_cur c = { obj, len }; int tag; const uint8_t *v, *tbs, *alg, *sig; size_t vl, tl, al, sl, h, th, ah, sh; if (!der_tlv(&c, &tag, &v, &vl, &h)) return; der_cur in = { v, vl }; const uint8_t *t0 = in.p; if (!der_tlv(&in, &tag, &tbs, &tl, &th)) return; const uint8_t *a0 = in.p; if (!der_tlv(&in, &tag, &alg, &al, &ah)) return; const uint8_t *s0 = in.p; if (!der_tlv(&in, &tag, &sig, &sl, &sh)) return;
+	int n = 0; for (int oid = 1; oid < 400; oid++) { if (oid == OID_sm2sign_with_sm3 || !x509_signature_algor_name(oid)) continue; uint8_t ab[64], *p = ab; size_t abl = 0; if (x509_signature_algor_to_der(oid, &p, &abl) != 1) continue; n++;
+		uint8_t *body = (uint8_t *)malloc(len + 64), *m = (uint8_t *)malloc(len + 80); size_t bl = 0; memcpy(body, t0, th + tl); bl = th + tl; memcpy(body + bl, ab, abl); bl += abl; memcpy(body + bl, s0, sh + sl); bl += sh + sl; size_t ml = der_put_tlv(m, 0x30, body, bl); (void)a0;
+		int r = x509_signed_verify(m, ml, key, IDS[sid].p, IDS[sid].n); vh_eval(vh_hash(obj, len, 50000 + oid));
+		if (r == 1) { char k2[160]; snprintf(k2, sizeof k2, "C15:%s:verifies-with-signatureAlgorithm-relabelled:%s", what, x509_signature_algor_name(oid)); vh_viol(k2, "\"object\":\"%s\"", vh_hex(m, ml > 300 ? 300 : ml)); } free(body); free(m); }
+	if (n < 5) vh_harness_error("fewer than 5 other signature algorithms found in the library's table");
+}
 static void bitflips(const char *what, const uint8_t *obj, size_t len, const SM2_KEY *key, int sid, int step) {
 	uint8_t *m = (uint8_t *)malloc(len);
 	for (size_t bit = 0; bit < len * 8; bit += step) { memcpy(m, obj, len); m[bit / 8] ^= (uint8_t)(1 << (bit % 8)); int r = x509_signed_verify(m, len, key, IDS[sid].p, IDS[sid].n); vh_eval(vh_hash(obj, len, bit + 1000));
@@ -44,7 +54,7 @@ static void blk_certs(void) {
 		FIELD(sm2_public_key_equ(&pk, &CK[0]) == 1, "public-key"); FIELD(eel == el && (!el || !memcmp(ee, exts, el)), "extensions"); FIELD(alg1 == OID_sm2sign_with_sm3 && alg2 == alg1, "algorithm"); FIELD(iu == NULL && su == NULL, "unique-ids");
 		/* the time encoding switch: UTCTime through 2049, GeneralizedTime from 2050 (RFC 5280 4.1.2.5) */
 		{ int utc = 0, gen = 0; for (size_t i = 0; i + 1 < cl; i++) { if (cert[i] == 0x17 && cert[i + 1] == 0x0d) utc++; if (cert[i] == 0x18 && cert[i + 1] == 0x0f) gen++; } int wantgen = (nb >= 2524608000) + (na >= 2524608000); if (gen < wantgen || utc < 2 - wantgen) { snprintf(key, sizeof key, "C15:cert:time-type:tw%d", tw); vh_viol(key, "\"utc\":%d,\"generalized\":%d", utc, gen); } }
-		verify_matrix("cert", cert, cl, &CK[1], sid);
+		verify_matrix("cert", cert, cl, &CK[1], sid); if (ex == 0 || ex == 7) alg_relabel("cert", cert, cl, &CK[1], sid);
 		if ((si == 2 && tw == 0 && (ex == 0 || ex == 7)) || vh_thorough) bitflips("cert", cert, cl, &CK[1], sid, vh_thorough ? 1 : 1);
 		vh_sample("{\"block\":\"certs\",\"serial_len\":%zu,\"topbit\":%d,\"window\":%d,\"exts\":%d,\"signer_id\":%d,\"certlen\":%zu}", SL[si], hb, tw, ex, sid, cl);
 	}
@@ -57,7 +67,7 @@ static void blk_reqs(void) {
 		int ver, alg; const uint8_t *gs, *at, *sg; size_t gsl, atl, sgl; SM2_KEY pk; r = x509_req_get_details(req, rl, &ver, &gs, &gsl, &pk, &at, &atl, &alg, &sg, &sgl); vh_eval(vh_mix(sid * 10 + nm + 101));
 		if (r != 1 || ver != X509_version_v1 || gsl != sl || memcmp(gs, subj, sl) || sm2_public_key_equ(&pk, &CK[0]) != 1 || alg != OID_sm2sign_with_sm3) vh_viol("C15:req:field-differs", "\"req\":\"%s\"", vh_hex(req, rl));
 		for (int i = 0; i < 4; i++) { char *vb = (char *)malloc(IDS[i].n); memcpy(vb, IDS[i].p, IDS[i].n); r = x509_req_verify(req, rl, vb, IDS[i].n); free(vb); vh_eval(vh_mix(sid * 100 + nm * 10 + i + 201)); if ((r == 1) != (i == sid)) { char key[128]; snprintf(key, sizeof key, "C15:req:verify-id-matrix:%s:id=%d-signed-under-%d", r == 1 ? "accepted" : "rejected", i, sid); vh_viol(key, "\"x\":1"); } }
-		verify_matrix("req", req, rl, &CK[0], sid); if (sid < 2 && nm == 0) bitflips("req", req, rl, &CK[0], sid, 1); free(idb); 
+		verify_matrix("req", req, rl, &CK[0], sid); alg_relabel("req", req, rl, &CK[0], sid); if (sid < 2 && nm == 0) bitflips("req", req, rl, &CK[0], sid, 1); free(idb); 
 		/* a request whose subject key is NOT the signing key (the API takes the two separately): it must carry the subject key as given, and -
 		   being signed by somebody else - must not verify as a proof of possession */
 		{ static uint8_t rq2[1024]; uint8_t *p2 = rq2; size_t r2l = 0; venv_reset(77 + sid); char *id2 = (char *)malloc(IDS[sid].n); memcpy(id2, IDS[sid].p, IDS[sid].n); int r2 = x509_req_sign_to_der(X509_version_v1, subj, sl, &CK[1], (const uint8_t *)"", 0, OID_sm2sign_with_sm3, &CK[0], id2, IDS[sid].n, &p2, &r2l); vh_eval(vh_mix(sid * 10 + nm + 301));
@@ -78,7 +88,7 @@ static void blk_crls(void) {
 			if ((r == 1) != want) { char key[128]; snprintf(key, sizeof key, "C15:crl:lookup:%s:serial=%s", r == 1 ? "reported-revoked-but-not-listed" : "listed-but-not-reported", vh_hex(SER[q].b, SER[q].n)); vh_viol(key, "\"mask\":%d,\"ret\":%d", mask, r); }
 			else if (r == 1 && d != rd + q) vh_viol("C15:crl:lookup:wrong-revocation-date", "\"mask\":%d,\"q\":%d", mask, q); }
 		r = x509_signed_verify(crl, cl, &CK[1], IDS[sid].p, IDS[sid].n); vh_eval(vh_mix(mask * 2 + sid + 301)); if (r != 1) vh_viol("C15:crl:verify-own", "\"mask\":%d", mask);
-		verify_matrix("crl", crl, cl, &CK[1], sid); if (mask == 5 || mask == 0) bitflips("crl", crl, cl, &CK[1], sid, 1);
+		verify_matrix("crl", crl, cl, &CK[1], sid); alg_relabel("crl", crl, cl, &CK[1], sid); if (mask == 5 || mask == 0) bitflips("crl", crl, cl, &CK[1], sid, 1);
 		vh_sample("{\"block\":\"crls\",\"listed_mask\":%d,\"signer_id\":%d,\"crllen\":%zu}", mask, sid, cl); }
 }
 /* extension values of every size around the DER length-form boundaries (127/128, 255/256): issued certificate must carry a well-formed
